@@ -19,6 +19,8 @@ def run(ctx):
         beh = mtblib.generate(ctx, MODE, [(1, 1), (2, 1), (2, 2), (3, 2)], 1, ("a", "b"), sample=1500)
         beh += mtblib.generate(ctx, MODE, [(2, 2), (2, 3)], 2, ("a",), sample=800)
         share = 0.3
+    big_dims = ([(32, 2)] if MODE == "insertion" else [(31, 2)]) if ctx.quick else ([(32, 2), (32, 1), (31, 2), (20, 2), (16, 3)] if MODE == "insertion" else [(31, 2), (31, 1), (20, 2), (16, 3)])
+    beh += mtblib.generate_big(ctx, MODE, big_dims, sample=40 if ctx.quick else 400)
     n, acc = mtblib.replay(ctx, "C01", MODE, beh, share)
     tiny = mtblib.tiny_relation(ctx, MODE, [(7, 1, 1)] if ctx.quick else [(7, 1, 1), (11, 1, 1), (13, 1, 1), (7, 1, 2)] + ([(5, 1, 2)] if MODE == "deletion" else []))
     ctx.cov["tiny_field_tuples"] = tiny
